@@ -4,4 +4,4 @@ CONSTANTS
   Bug = "none"
   Group = "eitmonad"
   MaxLen = 0
-INVARIANTS TypeOK LawEitLeftIdentity LawEitRightIdentity LawEitAssoc LawEitJoin
+INVARIANTS TypeOK LawEitLeftIdentity LawEitRightIdentity LawEitAssoc LawEitJoin LawEitChain
